@@ -37,7 +37,10 @@ def run_l1(ctx, nhist, monitor, theorems, need=()):
                            ops=h["ops"],
                            replay_hint="ops are the ticks applied to control_loop._reduce_tick in order "
                                        "(Gallina notation; `expect` lists are the implementation's encoded results)"))
-    if bad and not fails:
+    if bad and not fails and any(v[1] for v in ctx.violations):
+        ctx.notes.append("%d reducer model/implementation disagreements accompany the concrete failures found by other "
+                         "stages" % len(bad))
+    elif bad and not fails:
         h = hs[bad[0]]
         detail = None
         try:
